@@ -36,10 +36,22 @@ BPI = "build_pipeline_inspection"
 
 
 def _main_loop(fn: ast.FunctionDef) -> ast.For:
-    loops = [n for n in walk_no_nested(fn) if isinstance(n, ast.For) and "node_configs" in ast.unparse(n.iter)]
+    p0 = fn.args.args[0].arg if fn.args.args else "node_configs"
+    loops = [n for n in walk_no_nested(fn) if isinstance(n, ast.For) and p0 in _names(n.iter) and any(call_attr(c) == "inspect_origin" for c in calls_in(n))]
     if not loops:
         raise AnalysisError("build_pipeline_inspection: loop over node_configs not found")
     return loops[0]
+
+
+def state_roles(fn: ast.FunctionDef) -> Tuple[str, str]:
+    """Names of the per-node abstract context state (origins, deleted keys): the variables handed to
+    inspect_origin as key_origin= / deleted_keys=."""
+    for c in calls_in(fn):
+        if call_attr(c) == "inspect_origin":
+            ko, dk = dotted_name(kwarg(c, "key_origin")), dotted_name(kwarg(c, "deleted_keys"))
+            if ko and dk:
+                return ko, dk
+    raise AnalysisError("build_pipeline_inspection: inspect_origin(key_origin=..., deleted_keys=...) not found")
 
 
 def _names(e: ast.AST) -> Set[str]:
@@ -61,6 +73,7 @@ def required_keys_rule(repo: Repo, R: Report) -> None:
     r = R.rule("C02-D2-required-keys-order-sensitive", "the set reported as required context keys is collected per node against the keys produced by *earlier* nodes only (before the node's own created keys are registered), and is not reduced afterwards by keys created anywhere in the pipeline", 3)
     fn = repo.func(BUILDER, BPI)
     loop = _main_loop(fn)
+    KO, _DK = state_roles(fn)
     ctor = next((c for c in calls_in(fn) if call_attr(c) == "PipelineInspection"), None)
     if ctor is None:
         raise AnalysisError("build_pipeline_inspection: PipelineInspection(...) not found")
@@ -102,7 +115,7 @@ def required_keys_rule(repo: Repo, R: Report) -> None:
         return
     g = CFG(fn, may_raise=lambda part: set())
     heads = set(g.nodes_for(loop))
-    stores = _key_state_stores(loop)
+    stores = _key_state_stores(loop, KO)
     store_ids = {nid for s in stores for nid in g.nodes_for(s)}
     for acc in accs:
         updates = _updates_of(loop, acc)
@@ -110,7 +123,7 @@ def required_keys_rule(repo: Repo, R: Report) -> None:
         for u in updates:
             txt_names = _names(u)
             # reads the flow state directly, or a value classified by inspect_origin
-            reads_state = "key_origin" in txt_names or any(
+            reads_state = KO in txt_names or any(
                 isinstance(c, ast.Compare) and any(isinstance(k, ast.Constant) and k.value == "required" for k in c.comparators) for a in ancestors(u) if isinstance(a, ast.If) for c in ast.walk(a.test))
             if reads_state:
                 flow = True
